@@ -80,6 +80,21 @@ def mutations(path, ops=None):
                     and '(' in s and s.count('(') == s.count(')') and s.count('{') == s.count('}') and 'panic!' not in s and 'debug_assert' not in s:
                 ind = l[:len(l) - len(l.lstrip())]
                 yield i, 'guard', '%sif !::std::thread::panicking() { %s }' % (ind, s)
+    if ops is not None and 'dup' in ops:
+        for i, l in code:
+            s_ = l.strip()
+            if s_.endswith(';') and not re.match(r'^(let|use|pub|return|break|continue|type|const|static|mod|extern|fn|impl|struct|enum|trait)\b', s_) \
+                    and '(' in s_ and s_.count('(') == s_.count(')') and s_.count('{') == s_.count('}') and 'panic!' not in s_ and 'assert' not in s_:
+                yield i, 'dup', l + ' ' + s_
+    if ops is not None and 'ifconst' in ops:
+        for i, l in code:
+            code_part = l.split('//')[0]
+            m = re.match(r'^(\s*)(\}\s*else\s+)?(if|while)\s+(?!let\b)(.+?)\s*\{\s*$', code_part.rstrip())
+            if m:
+                pre = m.group(1) + (m.group(2) or '')
+                if m.group(3) == 'if':
+                    yield i, 'if-true', '%sif (%s) || true {' % (pre, m.group(4))
+                yield i, '%s-false' % m.group(3), '%s%s (%s) && false {' % (pre, m.group(3), m.group(4))
     if ops is not None and 'noopwaker' in ops:
         # a waker that is registered or used for a poll is replaced by one that does nothing (data flow: *which* waker)
         for i, l in code:
@@ -299,7 +314,16 @@ def test_one(job):
     path, idx, new = job['file'], job['line'] - 1, None
     lines = open(os.path.join(REPO, path)).read().split('\n')
     # recompute the mutated line from the recorded operator
-    cand = [(i, op, nw) for (i, op, nw) in mutations(path) if i == idx and op == job['op']]
+    fam = None
+    if job['op'] in ('dup', 'if-true', 'if-false', 'while-false'):
+        fam = {'dup', 'ifconst'}
+    elif job['op'] == 'guard':
+        fam = {'guard'}
+    elif job['op'].startswith('earlyret'):
+        fam = {'earlyret'}
+    elif job['op'].startswith('noop'):
+        fam = {'noopwaker'}
+    cand = [(i, op, nw) for (i, op, nw) in mutations(path, fam) if i == idx and op == job['op']]
     if not cand:
         job['tests'] = 'lost'
         return job
